@@ -25,6 +25,8 @@ def gen_reconnect(seed, opts=None):
     if rng.random() < 0.4:
         # transports whose connect() really suspends (websocket handshake, lazily dialled TCP)
         plan['connect_delay'] = _pick(rng, [(1, ['hops', rng.randint(1, 5)]), (1, ['time', _pick(rng, [(2, 0.001), (1, 0.02)])])])
+    if rng.random() < 0.4:
+        plan['on_close_sleep'] = _pick(rng, [(1, 0.0005), (1, 0.02), (1, 0.5)])
     events = []
     t = 0.05
     ias = []
@@ -167,6 +169,8 @@ def _run(world, plan):
                 requested.add(k)
                 world.rec('act', ep='client', what='reconnect', via='on_close', conn=k)
                 await rs.reconnect()
+                if plan.get('on_close_sleep'):
+                    await asyncio.sleep(plan['on_close_sleep'])  # the handler goes on doing something after asking to reconnect
 
         async def on_timeout_hook(rs):
             k = state['conn']
